@@ -10,6 +10,7 @@ def register(reg):
     box = '(0, array.shape[0]), (0, array.shape[1])'
     reg.add(Contract(
         target=D + '_get_labels', props=['C06'],
+        replay={'call': 'photutils.segmentation.deblend:_get_labels', 'args': ['array']},
         params={'array': ('arr', 2, 'int', 'nonempty')},
         requires=[f'forall(lambda i, j: array[i, j] >= 0, {box})'],
         ensures=[
@@ -29,6 +30,8 @@ def register(reg):
     ))
     reg.add(Contract(
         target=D + '_create_relabel_map', props=['C06'],
+        replay={'call': 'photutils.segmentation.deblend:_create_relabel_map',
+                'args': ['array', 'start_label']},
         params={'array': ('arr', 2, 'int', 'nonempty'), 'start_label': 'pos'},
         requires=[f'forall(lambda i, j: array[i, j] >= 0, {box})',
                   f'exists(lambda i, j: array[i, j] != 0, {box})'],
